@@ -104,6 +104,10 @@ def run(ctx):
     for s in ["1e", "1.5e+", "0E-", "-0e", "1.e1", ".5", "1.", "01", "-", "--1", "+1", "1e1.5", "1e+-1", "é", "aé", "_é_"]:
         edits.add(s)
     cases = sorted(set(hexs(s) for s in strings) | set(hexs(s) for s in edits))
+    # fixed corpus first (witnesses of the former defect D8, non-ASCII names), so that a regression is
+    # reported with the canonical input
+    first = [hexs(s) for s in ("1e", "1.5e+", "aé", "é", "01", "-0", "1.0", "_")]
+    cases = first + [c for c in cases if c not in set(first)]
 
     # (a) names through every constructor
     rows = ctx.correspond(impl, model, "c10_name", cases,
